@@ -446,21 +446,34 @@ theorem c03_weighted_formula (opa ns : ℝ) (N : ℕ) (ak : List ℝ) (Rk : List
       = C01.docLogLambda opa N ns ((List.range n).map (weightedMeanAt ak Rk)) := by
   rw [c03_weighted_mean_list ak Rk n hr hA, c01_eq_documented_formula]
 
-/-- **No dependence on history**: on one object graph, whatever was evaluated before and whoever
-recalculated the shared weight services in between (initial content `st` arbitrary), every
-`evaluate(p, ns)` returns the stateless value `stackedLLR` at the yields of *its own* parameters. -/
-theorem c03_eval_history_independent {P : Type} (opa : ℝ) (W : List ℝ) (Yof : P → List (List ℝ))
-    (ds : List (Dataset ℝ)) (st : List (List ℝ)) (ops : List (SvcOp P ℝ)) :
-    svcRun opa W Yof ds st ops
-      = ops.filterMap (fun op => match op with
-          | .recalc _ => none
-          | .eval p ns => some (stackedLLR opa ns W (Yof p) ds)) := by
+/-- **No dependence on history** (refinement of the stateless specification by the object graph with
+its caches): whatever was evaluated before, whoever recalculated the shared weight services in
+between, and however often the sources were changed in place and propagated with `change_shg_mgr`,
+every `evaluate(p, ns)` returns the stateless value `stackedLLR` at the yields of *its own*
+parameters and the source weights *currently* in the manager — for every coherent start state
+(cached weights = manager's weights, as after construction; `a_jk` content arbitrary). -/
+theorem c03_eval_history_independent {P : Type} (opa : ℝ) (Yof : P → List (List ℝ))
+    (ds : List (Dataset ℝ)) (st : SvcState ℝ) (hco : st.Wc = st.W) (ops : List (SvcOp P ℝ)) :
+    svcRun opa Yof ds st ops = svcSpec opa Yof ds st.W ops := by
   induction ops generalizing st with
   | nil => rfl
   | cons op rest ih =>
     cases op with
-    | recalc p => simp [svcRun, svcStep, ih]
-    | eval p ns => simp [svcRun, svcStep, ih, stackedLLR]
+    | recalc p =>
+      simp only [svcRun, svcStep, svcSpec]
+      exact ih _ hco
+    | eval p ns =>
+      simp only [svcRun, svcStep, svcSpec, stackedLLR, hco]
+      rw [ih { W := st.W, Wc := st.W, a := ajk st.W (Yof p) } rfl]
+    | changeSources W' =>
+      simp only [svcRun, svcStep, svcSpec]
+      exact ih _ rfl
+
+/-- in particular: the first evaluation after an in-place change of the sources uses the new weights -/
+theorem c03_eval_after_change_sources {P : Type} (opa ns : ℝ) (Yof : P → List (List ℝ))
+    (ds : List (Dataset ℝ)) (st : SvcState ℝ) (W' : List ℝ) (p : P) :
+    svcRun opa Yof ds st [.changeSources W', .eval p ns] = [stackedLLR opa ns W' (Yof p) ds] := by
+  simp [svcRun, svcStep, stackedLLR]
 
 /-! ### non-vacuity -/
 
